@@ -21,18 +21,19 @@ THEOREMS = [
     "Ural.Props.C17.links_relative_resolved",
     "Ural.Props.C17.links_order",
     "Ural.Props.C17.links_complete",
-    "Ural.Props.C17.links_are_urls_partial",
     "Ural.Props.C17.links_are_urls",
-    "Ural.Props.C17.links_should_follow_partial",
+    "Ural.Props.C17.links_should_follow",
     # part A with the parameters INSTANTIATED (Props/C17Concrete.lean): is_url / urljoin /
-    # canonicalize_url are the Lean models, only the idna codec and the TLD table stay outside
+    # canonicalize_url are the Lean models, only the idna codec and the TLD table stay outside;
+    # the three clauses about the yielded link carry NO hypothesis
+    "Ural.Props.C17.links_are_urls_concrete",
+    "Ural.Props.C17.links_should_follow_concrete",
+    "Ural.Props.C17.links_http_concrete",
+    # side theorems about canonicalize_url itself (not used by the clauses above)
+    "Ural.Props.C17.canon_preserves_is_url_on",
     "Ural.Props.C17.canon_preserves_is_url",
     "Ural.Props.C17.canon_not_preserving_outside_region",
     "Ural.Props.C17.canon_not_preserving_bad_puny",
-    "Ural.Props.C17.links_are_urls_concrete",
-    "Ural.Props.C17.links_are_urls_concrete_plain",
-    "Ural.Props.C17.links_should_follow_concrete",
-    "Ural.Props.C17.links_http_concrete",
     "Ural.Props.C17.isUrlC_implies_http",
     "Ural.Props.C17.isUrlC_total",
     "Ural.Props.C17.links_not_base_concrete",
@@ -96,7 +97,7 @@ EXHAUSTIVE = {
 TRUSTED = [
     "Lean 4 kernel; axioms of every listed theorem audited to be within {propext, Classical.choice, Quot.sound}",
     "hand-written Lean models UralModel/Model/UrlsFromHtml.lean (leftmost-greedy scanners for SCRIPT_TAG / URL_IN_HTML over any symbol type, instantiated at Char and UInt8) and Model/LinksFromHtml.lean (filter chain, should_follow_href), tied to the code by differential execution (this run); pattern strings, flags and the parsed character tests of the four compiled regexes are regenerated on every run (Gen/HtmlPatterns.lean) and enter through decide-checked table obligations",
-    "urljoin, is_url, canonicalize_url, PROTOCOL_RE.match are PARAMETERS of the links model in Props/C17.lean (theorems hold for all functions; stream links_from_html: their values are computed by the harness with the real functions and shipped as tables) and are INSTANTIATED in Props/C17Concrete.lean / stream links_concrete by the Lean models of C16 (is_url over the regenerated patterns, safe_urlsplit(...).hostname = Py.urlsplit + accessors), C15 (Py.urljoin) and C01/C02 (whole-function canonicalize_url); what stays outside is the idna codec (attempt_to_decode_idna) and the TLD table (is_valid_tld), shipped per case; the theorem canon_preserves_is_url assumes of the codec only PunyLabelSafe (a label of the is_url patterns decodes to a label of the patterns), which is FALSE for CPython's codec exactly on KF-C17-4 and is evaluated on the real codec for every decoded label (oracle cross-check)",
+    "urljoin, is_url, canonicalize_url, PROTOCOL_RE.match are PARAMETERS of the links model in Props/C17.lean (theorems hold for all functions; stream links_from_html: their values are computed by the harness with the real functions and shipped as tables) and are INSTANTIATED in Props/C17Concrete.lean / stream links_concrete by the Lean models of C16 (is_url over the regenerated patterns, safe_urlsplit(...).hostname = Py.urlsplit + accessors), C15 (Py.urljoin) and C01/C02 (whole-function canonicalize_url); what stays outside is the idna codec (attempt_to_decode_idna) and the TLD table (is_valid_tld), shipped per case. The clauses about the yielded link (links_are_urls_concrete, links_should_follow_concrete, links_http_concrete) assume NOTHING of the codec or the table. Only the side theorem canon_preserves_is_url_on assumes of the codec that the labels of the url's own hostname decode to labels of the is_url patterns (PunySafeOnHostOf; evaluated on the real codec for every decoded label by the oracle cross-check); its corollary canon_preserves_is_url under the global PunyLabelSafe is vacuous for CPython's codec (xn---a-cja decodes to -aé)",
     "the parser models (Py.urlsplit, accessors, urljoin) are compared with CPython, not proved equal to it; stated restrictions: str.lower is ASCII lower-casing on hosts, _checknetloc (NFKC) not modelled, _check_bracketed_host approximated; cases outside are withheld from links_concrete (histogram label concrete-model:*) and KF-C17-5 lies there",
     "html.unescape is a parameter of the theorems; the driver implements &amp; &lt; &gt; &quot; &apos; and numeric references with ';' and the stream only keeps documents on whose raw hrefs CPython's html.unescape agrees with that subset",
     "UTF-8: Lean core's String.utf8EncodeChar / ByteArray.utf8Decode? (round trip proved in core) stand for CPython's codec; the driver checks utf8(doc) against the bytes CPython produced for every case",
@@ -109,11 +110,21 @@ ASSUMPTIONS = [
 UNPROVED = (
     "Nothing of the statement is left to the oracle alone for the model: since /repo 6e8a1b4 links_from_html "
     "tests is_url again after canonicalize_url, so 'every yielded link is accepted by is_url' is a theorem "
-    "for ARBITRARY parameters (links_are_urls, no hypothesis). The preservation theorem about the concrete "
-    "models stays (canon_preserves_is_url on the class region: ASCII scheme, no '@' behind the authority, "
-    "idna decoder mapping host labels to host labels) together with the witnesses that outside that class "
-    "canonicalize_url does NOT preserve is_url (canon_not_preserving_outside_region / _bad_puny; the former "
-    "findings KF-C17-3/4/5, whose inputs stay in the corpus: with the fix such links are dropped, not yielded). "
+    "for ARBITRARY parameters (links_are_urls, no hypothesis) and, for the concrete models, "
+    "links_are_urls_concrete / links_should_follow_concrete / links_http_concrete hold with NO hypothesis "
+    "(no input class, nothing assumed of the idna codec). Read with care: (1) the per-link theorems of part A "
+    "(links_followable, links_not_base, links_canonical, links_plain, links_relative_resolved, links_are_urls) "
+    "are the filter chain of the model read back - true by construction of the model for abstract "
+    "parameters; what they say about the CODE rests on the model-vs-code correspondence (differential "
+    "execution); links_unique, links_order, links_complete are the facts that need the loop invariant. "
+    "(2) 'absolute http(s) URL' is links_http_concrete: stripped, non-empty, matched by HTTP_PROTOCOL_RE, "
+    "which (re.I, Unicode) also admits U+017F for the 's' of https; 'scheme in {http, https}' exactly is "
+    "checked by the oracle on the implementation only. (3) canon_preserves_is_url_on is a side theorem about "
+    "canonicalize_url on the class region (ASCII scheme, no '@' behind the authority) for decoders mapping the "
+    "labels of the url's own hostname to labels; with the global hypothesis PunyLabelSafe "
+    "(canon_preserves_is_url) it is vacuous for CPython's codec; outside the class canonicalize_url does NOT "
+    "preserve is_url (canon_not_preserving_outside_region / _bad_puny; the former findings KF-C17-3/4/5, "
+    "whose inputs stay in the corpus: with the fix such links are dropped, not yielded). "
     "Not proved: that the parser models equal CPython's urlsplit / urljoin (compared on every run), what "
     "html.unescape computes (parameter of part B), the idna codec and the TLD table (shipped)."
 )
@@ -1220,7 +1231,7 @@ def kf_canonical_link_unparsable(case, failure):
 
 
 # ----------------------------------------------------------------------------------------
-# the domain of the theorem canon_preserves_is_url, mirrored on the implementation
+# the domain of the theorem canon_preserves_is_url_on, mirrored on the implementation
 # ----------------------------------------------------------------------------------------
 def in_region(u):
     """Python mirror of `Ural.UrlPattern.region` (Lemmas/IsUrlShape.lean)"""
@@ -1248,7 +1259,7 @@ def _label():
 
 
 def puny_label_safe_on(r):
-    """PunyLabelSafe evaluated on the real codec for the labels of the host of `r`"""
+    """PunySafeOnHostOf (PunyLabelSafeOn) evaluated on the real codec: the xn-- labels of the host of `r`"""
     puny = _m()["utils"].attempt_to_decode_idna
     for lab in _labels_of(r):
         if lab[:4] == "xn--" and _label().match(lab) and not _label().match(puny(lab)):
@@ -1257,7 +1268,7 @@ def puny_label_safe_on(r):
 
 
 def in_theorem_domain(r):
-    """the hypotheses of canon_preserves_is_url + the stated domain of the parser models"""
+    """the hypotheses of canon_preserves_is_url_on + the stated domain of the parser models"""
     import canon_common as cc
 
     try:
@@ -1273,7 +1284,7 @@ def theorem_contradicted(case, failure):
     wrong hypothesis) - never masked by a known finding"""
     for r in _origins(case, failure):
         if in_theorem_domain(r):
-            return "CONTRADICTS Ural.Props.C17.canon_preserves_is_url (origin %r is in region, its labels decode to labels, inside the parser model): %s" % (r, failure)
+            return "CONTRADICTS Ural.Props.C17.canon_preserves_is_url_on (origin %r is in region, its labels decode to labels, inside the parser model): %s" % (r, failure)
     return None
 
 
